@@ -138,6 +138,7 @@ class Opts(object):
         self.inject_failure = False     # C08: exactly one failing statement in the module
         self.prose_first_p = 0.12       # google body starting with prose/blank (K-C08-a)
         self.unexecuted_defs_p = 0.10   # definitions in a branch that an import does not execute (outside C16)
+        self.alias_names = True         # `Alias = name` second names for defs / classes (outside C16)
         self.__dict__.update(kw)
 
 
@@ -161,7 +162,11 @@ class _Gen(object):
         """returns (source lines without prompt, want lines, kind)"""
         r = self.rng
         k = r.randint(0, 99)
-        kind = r.choice(['assign', 'multi', 'print', 'expr', 'def', 'multiprint', 'assign'])
+        kind = r.choice(['assign', 'multi', 'print', 'expr', 'def', 'multiprint', 'assign', 'oldstyle'])
+        if kind == 'oldstyle':
+            # an old-style compound statement closed by a BARE `...` line (rendered from the empty last line), then its output
+            self.m.features.add('stmt:oldstyle-bare-dots')
+            return ['for i%d in range(2):' % k, '    print(%d + i%d)' % (k, k), ''], ['%d' % k, '%d' % (k + 1)], kind
         if kind == 'assign':
             return ['x%d = %d' % (k, k)], [], kind
         if kind == 'multi':
@@ -178,11 +183,14 @@ class _Gen(object):
         """a statement that fails; returns (lines, want, kind, offset of the failing line in the statement
         or 'want')"""
         r = self.rng
-        kind = r.choice(['exc-multi', 'exc-called', 'gotwant', 'exc-simple', 'exc-helper', 'gotwant-multi',
+        kind = r.choice(['exc-multi', 'exc-called', 'gotwant', 'exc-simple', 'exc-helper', 'gotwant-multi', 'gotwant-oldstyle',
                          'exc-finally', 'exc-reraise', 'exc-finally-loop', 'badrepr'])
         k = r.randint(0, 99)
         # the raising statement inside try/finally or try/except...raise: the frame goes on executing the cleanup
         # suite while the exception unwinds, so frame.f_lineno differs from the traceback entry's tb_lineno
+        if kind == 'gotwant-oldstyle':
+            # wrong output after an old-style block closed by a bare `...`: the failing line is the first want line
+            return ['for i%d in range(2):' % k, '    print(%d + i%d)' % (k, k), ''], ['%d' % k, 'not %d' % (k + 1)], kind, 'want'
         if kind == 'badrepr':
             # the value of the last expression cannot be rendered: reported at the expression itself
             return ['class B%d(object):' % k, '    def __repr__(self):', '        raise RuntimeError(%d)' % k, 'B%d()' % k], ['something'], kind, 3
@@ -329,6 +337,13 @@ class _Gen(object):
         m.emit(inner + 'ign%d' % k)
         m.ignored_lines.append(m.emit(inner + '>>> ign%d = %d' % (k, k)))
         if r.random() < 0.5:
+            m.features.add('ignored:oldstyle-bare-dots')
+            m.ignored_lines.append(m.emit(inner + '>>> for ign in range(2):'))
+            m.emit(inner + '...     print(ign)')
+            m.emit(inner + '...')
+            m.emit(inner + '0')
+            m.emit(inner + '1')
+        if r.random() < 0.5:
             m.ignored_lines.append(m.emit(inner + '>>> ign%d + 1' % k))
             m.emit(inner + '%d' % (k + 1))
         m.emit('')
@@ -374,8 +389,8 @@ class _Gen(object):
         # a statement may consist of several top-level statements (exc-called, exc-helper): every
         # line that is not a continuation gets a PS1 prompt
         for i, l in enumerate(lines):
-            cont = i > 0 and l.startswith((' ', ')', ']', 'finally:', 'except ', 'except:', 'else:'))
-            ln = m.emit(inner + ('... ' if cont else '>>> ') + l)
+            cont = i > 0 and (l == '' or l.startswith((' ', ')', ']', 'finally:', 'except ', 'except:', 'else:')))
+            ln = m.emit(inner + ('...' if l == '' else ('... ' if cont else '>>> ') + l))
             stmt_lines.append(ln)
             if first is None:
                 first = ln
@@ -649,14 +664,38 @@ class _Gen(object):
             if r.random() < 0.3:
                 self.nested_top.add(self.emit_func(4, 'module'))
 
+    def emit_rebinding(self, name, is_class):
+        """module-level assignments after a def / class: the SAME name re-bound through a wrapper that keeps __module__,
+        __name__ and __doc__ (functools.wraps, identity) or to itself: still the def's doctests for both collectors; or a
+        SECOND name for it: the static collector keeps the def only, the dynamic one also reports the alias (outside C16)"""
+        r = self.rng
+        m = self.m
+        if r.random() >= 0.2:
+            return
+        c = r.random()
+        if c < 0.75 or not self.o.alias_names:
+            m.features.add('rebinding:same-name')
+            if is_class:
+                m.emit(r.choice(['%s = class_deco(%s)', '%s = ext_class_deco(%s)', '%s = %s']) % (name, name))
+            else:
+                m.emit(r.choice(['%s = deco(%s)', '%s = ext_deco(%s)', '%s = ext_same(%s)', '%s = %s', '%s = deco_factory(1)(%s)'])
+                       % (name, name))
+        else:
+            m.features.add('rebinding:alias')
+            alias = self.name('Alias' if is_class else 'alias')
+            m.emit('%s = %s' % (alias, name))
+            m.hidden.append(alias)
+            m.fragment = False
+            self.nested_top.add(name)       # never redefined afterwards: the model's alias sees the final binding of the name
+
     def emit_top(self):
         r = self.rng
         m = self.m
         c = r.random()
         if c < 0.34:
-            self.emit_func(0, 'module')
+            self.emit_rebinding(self.emit_func(0, 'module'), False)
         elif c < 0.58:
-            self.emit_class(0)
+            self.emit_rebinding(self.emit_class(0), True)
         elif c < 0.72:
             def inner(ind):
                 if r.random() < 0.6:
@@ -699,8 +738,8 @@ class _Gen(object):
         if m.cookie:
             m.emit('# -*- coding: %s -*-' % m.cookie)
             m.features.add('cookie:' + m.cookie)
-        if m.cookie != 'latin-1' and r.random() < 0.3:
-            m.emit('# non-ASCII text in a comment: caf\u00e9 \u2013 na\u00efve \u4e2d')
+        if r.random() < 0.4:
+            m.emit('# non-ASCII text in a comment: caf\u00e9 na\u00efve' + ('' if m.cookie == 'latin-1' else ' \u2013 \u4e2d'))
             m.features.add('non-ascii')
         if r.random() < 0.6:
             d = self.emit_docstring(0, '__doc__')
